@@ -15,8 +15,13 @@ Definition EPOCH : Z := 62135596800 * 1000000000.
 Definition reft (ts : Z) : Z := ToTime (ts * 65536) + EPOCH.
 
 (* ---- compact case syntax ---- *)
+(* a metric block as one number: -1 = not received, else ECN * 8192 + ArrivalTimeOffset *)
+Definition mb_of (z : Z) : mblock := if z <? 0 then (false, 0, 0) else (true, z / 8192, z mod 8192).
+Definition rb_of (b : Z * Z * list Z) : rblock := let '(ssrc, begin, l) := b in (ssrc, begin, map mb_of l).
+
 Inductive cop :=
 | Op (o : op)
+| CFb (ts : Z) (bs : list (Z * Z * list Z))
 | SentRun (extid ssrc seq0 twcc0 hsize size dep0 ddep n : Z).
 
 Fixpoint sent_run (extid ssrc seq0 twcc0 hsize size dep0 ddep : Z) (i : Z) (n : nat) : list op :=
@@ -29,13 +34,27 @@ Fixpoint sent_run (extid ssrc seq0 twcc0 hsize size dep0 ddep : Z) (i : Z) (n : 
 Definition expand (c : cop) : list op :=
   match c with
   | Op o => [o]
+  | CFb ts bs => [FbCcfb ts (map rb_of bs)]
   | SentRun extid ssrc seq0 twcc0 hsize size dep0 ddep n =>
       sent_run extid ssrc seq0 twcc0 hsize size dep0 ddep 0 (Z.to_nat n)
   end.
 
+(* acknowledgements are printed flat, six numbers each (faster to parse than tuples) *)
+Fixpoint unflat (l : list Z) (fuel : nat) : list ack :=
+  match fuel, l with
+  | S f, a :: t =>
+      if a =? -1 then zero_ack :: unflat t f       (* -1 abbreviates the zero-valued Acknowledgment *)
+      else match t with
+           | b :: c :: d :: e :: g :: t' => (a, b, c, d, e, g) :: unflat t' f
+           | _ => []
+           end
+  | _, _ => []
+  end.
+Definition unflat_out (r : Z * list Z) : out := (fst r, unflat (snd r) (length (snd r))).
+
 (* a case: operations, indices of the Sent operations that returned an error,
    outputs of the feedback operations in order *)
-Definition cc_case := (list cop * list Z * list out)%type.
+Definition cc_case := (list cop * list Z * list (Z * list Z))%type.
 
 Definition is_sent (o : op) : bool := match o with Sent _ _ _ _ _ _ _ => true | _ => false end.
 
@@ -55,7 +74,8 @@ Fixpoint fb_outs (ops : list op) (outs : list out) : list out :=
 Definition out_eqb (a b : out) : bool := (fst a =? fst b) && list_eqb ack_eqb (snd a) (snd b).
 
 Definition cc_model_ok (c : cc_case) : bool :=
-  let '(cops, errs, outs) := c in
+  let '(cops, errs, outs0) := c in
+  let outs := map unflat_out outs0 in
   let ops := flat_map expand cops in
   let mo := run reft [] ops in
   list_eqb Z.eqb (sent_errs ops mo 0) errs && list_eqb out_eqb (fb_outs ops mo) outs.
@@ -232,7 +252,7 @@ Fixpoint cc_walk (rs : list ack) (ops : list op) (outs : list out) : list nat :=
   end.
 
 Definition cc_case_codes (c : cc_case) : list nat :=
-  let '(cops, _, outs) := c in nodup_nat (cc_walk [] (flat_map expand cops) outs).
+  let '(cops, _, outs) := c in nodup_nat (cc_walk [] (flat_map expand cops) (map unflat_out outs)).
 
 Fixpoint codes_of {A} (f : A -> list nat) (cases : list A) (i : nat) : list (nat * nat) :=
   match cases with
